@@ -224,7 +224,25 @@ impl Monitor for C14 {
                     fail(acc, "minor_swap_recorded_as_major", format!("price moved {} -> {} (< {} ticks) but last_major_swap_timestamp changed {was} -> {}", pre.sqrt_price, post.sqrt_price, c.major_swap_threshold_ticks, v.last_major_swap_timestamp));
                 }
             } else {
-                acc.count("major_swap_indifference_band");
+                // inside the floating-point band the published price of `threshold` ticks decides, in exact integers:
+                // moved by the threshold <=> large / small >= F / 2^64 with F = price(threshold ticks) of the tick table
+                // (C09); only the sub-unit zone where floor(small * F / 2^64) == large without exact equality stays open
+                use num_bigint::BigUint;
+                let f = sqrt_price_from_tick_index(c.major_swap_threshold_ticks as i32);
+                let lhs = BigUint::from(small) * BigUint::from(f);
+                if lhs <= (BigUint::from(large) << 64usize) {
+                    acc.count("major_swaps_at_exactly_the_threshold");
+                    if v.last_major_swap_timestamp != now {
+                        fail(acc, "major_swap_not_recorded", format!("price moved {} -> {}: the ratio reaches the published price of {} ticks ({f}/2^64) but last_major_swap_timestamp {} != clock {now}", pre.sqrt_price, post.sqrt_price, c.major_swap_threshold_ticks, v.last_major_swap_timestamp));
+                    }
+                } else if lhs >= ((BigUint::from(large) + 1u32) << 64usize) {
+                    acc.count("minor_swaps_just_below_the_threshold");
+                    if v.last_major_swap_timestamp != was {
+                        fail(acc, "minor_swap_recorded_as_major", format!("price moved {} -> {}: short of the published price of {} ticks but last_major_swap_timestamp changed {was} -> {}", pre.sqrt_price, post.sqrt_price, c.major_swap_threshold_ticks, v.last_major_swap_timestamp));
+                    }
+                } else {
+                    acc.count("major_swap_indifference_band");
+                }
             }
             let _ = set;
             acc.situation(format!("{name}:{}:{elapsed_class}:cf{}:sat{}:steps{}", begin.a_to_b, (c.adaptive_fee_control_factor > 0) as u8, saw_saturated as u8, super::bucket(steps.len())));
